@@ -55,6 +55,9 @@ class State:
         self.popped = {}     # storage key -> count
         self.read_results = {}  # local -> read index
         self.empty_reads = set()
+        self.selfs = set()      # locals that alias `self` (after inlining a helper method the callee's self is a fresh local)
+        self.lastres = {}       # local holding the Option<&u8> returned by slice::last -> content tuple
+        self.consts = {}        # bool local -> constant it was last assigned on this path
 
     def clone(self):
         s = State()
@@ -66,6 +69,9 @@ class State:
         s.popped = dict(self.popped)
         s.read_results = dict(self.read_results)
         s.empty_reads = set(self.empty_reads)
+        s.selfs = set(self.selfs)
+        s.lastres = dict(self.lastres)
+        s.consts = dict(self.consts)
         return s
 
 
@@ -73,7 +79,7 @@ def _skey(fn, pl, st):
     """storage key of a place: ('self', field) for fields of self, ('l', n) for locals (through aliases)"""
     l = pl["l"]
     flds = place_fields(pl)
-    if l == 1 and flds:
+    if (l == 1 or l in st.selfs) and flds:
         return ("self", flds[0])
     if l in st.alias and not flds:
         return st.alias[l]
@@ -84,7 +90,7 @@ def _skey(fn, pl, st):
 
 def run(R):
     P = R.prog
-    f = R.need_fn(NEXT)
+    f = PR.view(P, R.need_fn(NEXT), keep=r"^std::|^core::|^alloc::")
     R.rule("C10.conserve", "abstract interpretation of one iteration of FollowFileIterator::next over all acyclic paths: on retry the carry "
                            "buffers keep pending + newly read bytes once and in order; on delivery the value is pending + read with exactly "
                            "one (proven) trailing newline removed and the carries are left empty; None only on a read error")
@@ -300,10 +306,34 @@ def _walk(f, bb, st, onpath, outcomes, header, body, depth):
             zero_read = None
             if d["k"] in ("copy", "move") and d["pl"]["l"] in st.read_results and d["pl"]["p"]:
                 zero_read = st.read_results[d["pl"]["l"]]
+            last_key = None
+            last_mode = None
+            if d["k"] in ("copy", "move") and d["pl"]["l"] in st.lastres and d["pl"]["p"] and d.get("ty") == "u8":
+                last_key, last_mode = st.lastres[d["pl"]["l"]], "byte"
+            elif info and info[0] == "discr" and info[1] in st.lastres:
+                last_key, last_mode = st.lastres[info[1]], "discr"
+            known = st.consts.get(dl) if (dl is not None and not d["pl"]["p"] and d.get("ty") == "bool") else None
             for (v, b2) in targets:
                 if f.blocks[b2]["term"]["k"] == "unreachable" and not f.blocks[b2]["stmts"]:
                     continue
+                if known is not None and ((v == "0") == known):
+                    continue   # the flag is a known constant on this path: only the matching edge is feasible
                 s2 = st.clone()
+                if last_mode == "byte":
+                    truth = (v == "10")
+                    if last_key in s2.nl and s2.nl[last_key] != truth:
+                        continue
+                    s2.nl[last_key] = truth
+                elif last_mode == "discr":
+                    names_ = info[2] if isinstance(info[2], dict) else {}
+                    is_none = (names_.get(v) == "None") or (v == "0" and not names_)
+                    if v == "otherwise":
+                        listed = [names_.get(x) for x, _ in t["targets"]]
+                        is_none = "Some" in listed and "None" not in listed
+                    if is_none:
+                        if last_key in s2.nl and s2.nl[last_key] is True:
+                            continue
+                        s2.nl[last_key] = False
                 if info and info[0] == "nl":
                     truth = (v != "0") if info[2] else (v == "0")
                     key = info[1]
@@ -332,6 +362,10 @@ def _stmt(f, st, s, bb):
     pl, rv = s["pl"], s["rv"]
     k = rv["k"]
     dst_local = pl["l"] if not pl["p"] else None
+    if k in ("ref", "copy_for_deref", "rawptr") and dst_local is not None and not place_fields(rv["pl"]) and \
+            (rv["pl"]["l"] == 1 or rv["pl"]["l"] in st.selfs):
+        st.selfs.add(dst_local)
+        return
     if k in ("ref", "copy_for_deref", "rawptr"):
         key = _skey(f, rv["pl"], st)
         if dst_local is not None and key is not None:
@@ -339,6 +373,21 @@ def _stmt(f, st, s, bb):
         return
     if k == "use" or (k == "cast" and rv["ck"].startswith("PointerCoercion")):
         op = rv["op"]
+        if op["k"] in ("copy", "move") and dst_local is not None and not op["pl"]["p"] and (op["pl"]["l"] == 1 or op["pl"]["l"] in st.selfs) \
+                and "FollowFileIterator" in op.get("ty", ""):
+            st.selfs.add(dst_local)
+            return
+        if op["k"] in ("copy", "move") and dst_local is not None and op["pl"]["l"] in st.lastres and \
+                all(isinstance(e, dict) for e in op["pl"]["p"]):
+            st.lastres[dst_local] = st.lastres[op["pl"]["l"]]
+            return
+        if dst_local is not None:
+            if op["k"] == "const" and op.get("v") in ("true", "false"):
+                st.consts[dst_local] = op["v"] == "true"
+            elif op["k"] in ("copy", "move") and not op["pl"]["p"] and op["pl"]["l"] in st.consts:
+                st.consts[dst_local] = st.consts[op["pl"]["l"]]
+            else:
+                st.consts.pop(dst_local, None)
         if op["k"] in ("copy", "move"):
             src = _skey(f, op["pl"], st)
             if dst_local is not None:
@@ -363,6 +412,10 @@ def _stmt(f, st, s, bb):
             dk = _skey(f, pl, st)
             if dk is not None and dk in st.store:
                 st.store[dk] = []
+        return
+    if k == "unop" and rv["op"] == "Not" and dst_local is not None and rv["o"]["k"] in ("copy", "move") and \
+            not rv["o"]["pl"]["p"] and rv["o"]["pl"]["l"] in st.consts:
+        st.consts[dst_local] = not st.consts[rv["o"]["pl"]["l"]]
         return
     if k == "unop" and rv["op"] == "Not":
         o = rv["o"]
@@ -430,6 +483,13 @@ def _call(f, st, t, bb):
         k = akey(0)
         if dl is not None and k is not None:
             st.alias[dl] = k
+        return
+    if name == "core::slice::<impl [T]>::last":
+        k = akey(0)
+        if k is not None and dl is not None:
+            v = st.store.get(k)
+            if v is not None and v is not TOP:
+                st.lastres[dl] = tuple(a for a in v if a[0] in ("C", "N"))
         return
     if ENDS_WITH.search(name):
         k = akey(0)
@@ -537,42 +597,30 @@ def _call(f, st, t, bb):
 
 
 def _check_seek(R):
-    f = R.need_fn("sqlgrep::executor::FollowFileExecutor::new")
+    f = PR.view(R.prog, R.need_fn("sqlgrep::executor::FollowFileExecutor::new"), keep=L.EXEC_KEEP)
     seeks = PR.calls_matching(f, r"as std::io::Seek>::seek$")
-    sws = [sw for sw in sorted(f.reach) if f.blocks[sw]["term"]["k"] == "switch" and
-           f.blocks[sw]["term"]["discr"].get("ty") == "bool" and
-           any(o.kind == "arg" and f.local_ty(o.arg) == "bool" for o in F.origins(f, f.blocks[sw]["term"]["discr"], depth=4))]
-    if len(seeks) != 2 or len(sws) != 1:
-        R.violation("C10.seek", "new|shape", "FollowFileExecutor::new: expected one branch on `head` with one seek per arm (found %d seeks, %d branches)"
-                    % (len(seeks), len(sws)), [f.loc()])
+    fa = PR.facts(f)
+    if not seeks:
+        R.violation("C10.seek", "new|shape", "FollowFileExecutor::new does not position the reader (no seek)", [f.loc()])
         return
-    sw = sws[0]
-    t = f.blocks[sw]["term"]
-    false_t = [b for v, b in t["targets"] if v == "0"][0]
-    true_t = t["otherwise"]
-
-    def seek_kind(c):
-        for o in F.origins(f, c.args[1], depth=4):
-            if o.kind == "aggr":
-                pass
-        for i, s in f.stmts():
-            if s["k"] == "assign" and s["rv"]["k"] == "aggr" and s["rv"].get("adt", "").endswith("SeekFrom") and \
-                    c.args[1]["k"] in ("copy", "move") and s["pl"]["l"] == c.args[1]["pl"]["l"]:
-                ops = s["rv"]["ops"]
-                return s["rv"].get("variant"), (ops[0].get("int") if ops else None)
-        return None, None
-
-    res = {}
-    for c in seeks:
-        arm = "true" if f.dominates(true_t, c.bb) and F.edge_target_unique(f, sw, true_t) else \
-            ("false" if f.dominates(false_t, c.bb) and F.edge_target_unique(f, sw, false_t) else "?")
-        res[arm] = seek_kind(c)
-    if res.get("true") == ("Start", 0) and res.get("false") == ("End", 0):
-        # same reader handed on
-        R.ok("C10.seek", "new", "head -> SeekFrom::Start(0), otherwise SeekFrom::End(0)", f.loc(sw))
+    # every SeekFrom value that can reach a seek: which variant/offset, and under which value of the bool `head` parameter it is built
+    head_args = [a_ for a_ in range(1, f.arg_count + 1) if f.local_ty(a_) == "bool"]
+    built_pos = {}
+    for i, st_ in f.stmts():
+        if st_["k"] == "assign" and st_["rv"]["k"] == "aggr" and (st_["rv"].get("adt") or "").endswith("SeekFrom"):
+            ops = st_["rv"]["ops"]
+            kind = (st_["rv"].get("variant"), ops[0].get("int") if ops and ops[0]["k"] == "const" else None)
+            hv = None
+            for flds, root, val in fa.place_facts(i):
+                if root in head_args and not flds:
+                    hv = val
+            built_pos.setdefault(hv, set()).add(kind)
+    if built_pos.get(True) == {("Start", 0)} and built_pos.get(False) == {("End", 0)} and set(built_pos) == {True, False}:
+        R.ok("C10.seek", "new", "head -> SeekFrom::Start(0), otherwise SeekFrom::End(0)", seeks[0].loc())
     else:
-        R.violation("C10.seek", "new|arms", "FollowFileExecutor::new seeks %s for --head and %s otherwise (expected Start(0) / End(0))"
-                    % (res.get("true"), res.get("false")), [f.loc(sw)])
+        R.violation("C10.seek", "new|arms", "FollowFileExecutor::new seeks %s for --head and %s otherwise%s (expected Start(0) / End(0))"
+                    % (sorted(built_pos.get(True, [])), sorted(built_pos.get(False, [])),
+                       "" if None not in built_pos else ", and %s independently of --head" % sorted(built_pos[None])), [seeks[0].loc()])
     recv = set()
     for c in seeks:
         a = c.args[0]
